@@ -1817,6 +1817,10 @@ int QSexact_solver (mpq_QSdata * p_mpq,
 		p_mpf = 0;
 	}
 	QSVERIF_EVENT("exact.giveup", last_status, *status);
+	/* every precision level is used up: an OPTIMAL or INFEASIBLE left behind by
+	 * the last level was never certified (the certified ones leave the loop) */
+	if (*status == QS_LP_OPTIMAL || *status == QS_LP_INFEASIBLE)
+		*status = QS_LP_UNSOLVED;
 	/* ending */
 CLEANUP:
 	dbl_EGlpNumFreeArray (x_dbl);
